@@ -65,6 +65,8 @@ func init() {
 			Run: func(P *Program, R *Report) { decodedProductRule(P, R, "C09.i") }},
 		Rule{ID: "C09.f", Explain: "Accumulator.Remove / newWitness: new Nu = Nu^(e^-1 mod Order) mod N, index+1, the event carries e, the new index and the parent's hash; a fresh witness is u = Nu^(e^-1) (symbolic terms; inverses checked).",
 			Run: func(P *Program, R *Report) { accumulatorRemoveRule(P, R) }},
+		Rule{ID: "C09.j", Explain: "one update object serves several witnesses and several polls: decoding the next message into a used Update does not write through objects that witnesses updated from it still hold (the decoders start from a zero-valued intermediate value, same rule as C18.n).",
+			Run: func(P *Program, R *Report) { freshDecodeTargetRule(P, R, "C09.j") }},
 	)
 }
 
